@@ -158,6 +158,21 @@ func (a *Activation) external(ins *ssa.Call, callee *ssa.Function, args []Val, s
 			c.Assume(fmt.Sprintf("(forall ((%s Int) (%s Int)) (=> (and (<= 0 %s) (< %s %s) (< %s %s)) (<= %s 0)))", i, j, i, i, j, j, s.Len, cmp.S))
 			st.ncall = c.Fresh("ncall", "Int")
 		}
+		if name == "slices.Sort" {
+			// ascending under the ordered type's own order (the same lt_<sort> that <, cmp.Compare are modelled by)
+			i, j := c.boundVar("i"), c.boundVar("j")
+			ei := sel(row, x.eidx(s.Off, i))
+			ej := sel(row, x.eidx(s.Off, j))
+			var le string
+			if srt == "Int" {
+				le = app("<=", ei, ej)
+			} else {
+				fn := "lt_" + srt
+				c.DeclFun(fn, []string{srt, srt}, "Bool")
+				le = not(app(fn, ej, ei))
+			}
+			c.Assume(fmt.Sprintf("(forall ((%s Int) (%s Int)) (=> (and (<= 0 %s) (< %s %s) (< %s %s)) %s))", i, j, i, i, j, j, s.Len, le))
+		}
 		st.gvars["sortperm"] = Val{K: KScalar, Srt: arrSort("Int", "Int"), S: perm}
 		st.gvars["sortinv"] = Val{K: KScalar, Srt: arrSort("Int", "Int"), S: inv}
 		return Val{K: KTuple}
